@@ -258,57 +258,73 @@ def rule_x3(repo, col):
         raise AnalysisError("mpe_maxsat: solver call not found")
     col.decide("X3", m, solves[0], lp.lineno < solves[0].lineno, "constraints are added before the solver is called", "mpe_maxsat calls the solver before the evidence constraints are added",
                function="mpe_maxsat")
-    # sign pairing of the probability product
-    prod = [n for n in walk_no_nested(f.node) if isinstance(n, ast.AugAssign) and isinstance(n.op, ast.Mult) and isinstance(n.target, ast.Name)]
+    # sign pairing of the probability product and of the reported facts; they may live in a helper the function hands the solution to (inlining bound 1)
+    wsrc0 = [st.targets[0].id for st in walk_no_nested(f.node) if isinstance(st, ast.Assign) and isinstance(st.targets[0], ast.Name) and isinstance(st.value, ast.Call)
+             and isinstance(st.value.func, ast.Attribute) and st.value.func.attr == "extract_weights" and norm(st.value.func.value) == cnf]
+    res0 = None
+    par0 = m.parents()
+    for st in walk_no_nested(f.node):
+        if isinstance(st, ast.Assign) and isinstance(st.targets[0], ast.Name) and any(x is solves[0] for x in ast.walk(st.value)):
+            res0 = st.targets[0].id
+    if res0 is None:
+        raise AnalysisError("mpe_maxsat: the solver's answer is not bound to a name")
+    scopes = [(f, set(wsrc0), res0)]
+    for c_ in walk_no_nested(f.node):
+        if isinstance(c_, ast.Call) and isinstance(c_.func, ast.Name) and c_.func.id in m.functions and not c_.keywords:
+            argn = [norm(a_) for a_ in c_.args]
+            h = m.functions[c_.func.id]
+            if res0 in argn and len(argn) == len(h.params):
+                scopes.append((h, set(h.params[i_] for i_, a_ in enumerate(argn) if a_ in wsrc0), h.params[argn.index(res0)]))
     parents = m.parents()
     seen = set()
-    for n in prod:
-        v = n.value
-        wsrc = [st.targets[0].id for st in walk_no_nested(f.node) if isinstance(st, ast.Assign) and isinstance(st.targets[0], ast.Name) and isinstance(st.value, ast.Call)
-                and isinstance(st.value.func, ast.Attribute) and st.value.func.attr == "extract_weights" and norm(st.value.func.value) == cnf]
-        if not (isinstance(v, ast.Subscript) and isinstance(v.value, ast.Subscript) and isinstance(v.value.value, ast.Name) and v.value.value.id in wsrc):
-            col.fail("X3", m, n, "mpe_maxsat multiplies the reported probability by %s, which is not a weight of the CNF that was solved (%s.extract_weights(...)[atom][0|1]): those weights "
-                     "include the normalisation of annotated disjunctions and the extra node, so any other source reports a probability that is not the one of the returned assignment"
-                     % (norm(v), cnf), function="mpe_maxsat")
-            seen.update((0, 1))
-            continue
-        atom = norm(v.value.slice)
-        okc, which = const_value(v.slice)
-        # the guard: nearest enclosing `X in result` test on the branch taken
-        cur, child = parents.get(n), n
-        lit = None
-        while cur is not None and cur is not f.node:
-            if isinstance(cur, ast.If) and isinstance(cur.test, ast.Compare) and len(cur.test.ops) == 1 and isinstance(cur.test.ops[0], ast.In) and child in cur.body:
-                lit = norm(cur.test.left)
-                break
-            child, cur = cur, parents.get(cur)
-        if lit is None or not okc:
-            raise AnalysisError("mpe_maxsat: guard of factor %s not found" % norm(n))
-        want = 0 if lit == atom else 1 if lit == "-%s" % atom else None
-        seen.add(want)
-        col.decide("X3", m, n, want is not None and which == want, "literal %s in the solution contributes weights[..][%s]" % (lit, which),
-                   "mpe_maxsat multiplies by %s under the test `%s in result`: a true atom contributes its positive weight [0], a false atom its negative weight [1]" % (norm(v), lit),
-                   function="mpe_maxsat")
-    if seen != {0, 1}:
-        col.fail("X3", m, f.node, "mpe_maxsat must account for both the atoms made true and the atoms made false in the reported probability", construct="def mpe_maxsat: probability product", function="mpe_maxsat")
-    # sign pairing of reported query facts
     n_out = 0
-    for n in walk_no_nested(f.node):
-        if isinstance(n, ast.Expr) and isinstance(n.value, ast.Call) and norm(n.value.func) == "output_facts.append" and n.value.args:
+    for sf, wsrc, resv in scopes:
+        prod = [n for n in walk_no_nested(sf.node) if isinstance(n, ast.AugAssign) and isinstance(n.op, ast.Mult) and isinstance(n.target, ast.Name)]
+        for n in prod:
+            v = n.value
+            if not (isinstance(v, ast.Subscript) and isinstance(v.value, ast.Subscript) and isinstance(v.value.value, ast.Name) and v.value.value.id in wsrc):
+                col.fail("X3", m, n, "mpe_maxsat multiplies the reported probability by %s, which is not a weight of the CNF that was solved (%s.extract_weights(...)[atom][0|1]): those weights "
+                         "include the normalisation of annotated disjunctions and the extra node, so any other source reports a probability that is not the one of the returned assignment"
+                         % (norm(v), cnf), function=sf.qualname)
+                seen.update((0, 1))
+                continue
+            atom = norm(v.value.slice)
+            okc, which = const_value(v.slice)
+            # the guard: nearest enclosing `X in result` test on the branch taken
             cur, child = parents.get(n), n
             lit = None
-            while cur is not None and cur is not f.node:
+            while cur is not None and cur is not sf.node:
                 if isinstance(cur, ast.If) and isinstance(cur.test, ast.Compare) and len(cur.test.ops) == 1 and isinstance(cur.test.ops[0], ast.In) and child in cur.body \
-                        and norm(cur.test.comparators[0]) == "result":
+                        and norm(cur.test.comparators[0]) == resv:
                     lit = norm(cur.test.left)
                     break
                 child, cur = cur, parents.get(cur)
-            if lit is None:
-                continue
-            n_out += 1
-            arg = norm(n.value.args[0])
-            col.decide("X3", m, n, lit.startswith("-") == arg.startswith("-"), "reported fact %s has the sign of its literal %s" % (arg, lit),
-                       "mpe_maxsat reports %s for the literal %s: the sign of a reported fact must be the sign of its literal in the solution" % (arg, lit), function="mpe_maxsat")
+            if lit is None or not okc:
+                raise AnalysisError("mpe_maxsat: guard of factor %s not found" % norm(n))
+            want = 0 if lit == atom else 1 if lit == "-%s" % atom else None
+            seen.add(want)
+            col.decide("X3", m, n, want is not None and which == want, "literal %s in the solution contributes weights[..][%s]" % (lit, which),
+                       "mpe_maxsat multiplies by %s under the test `%s in result`: a true atom contributes its positive weight [0], a false atom its negative weight [1]" % (norm(v), lit),
+                       function=sf.qualname)
+        # sign pairing of reported query facts
+        for n in walk_no_nested(sf.node):
+            if isinstance(n, ast.Expr) and isinstance(n.value, ast.Call) and isinstance(n.value.func, ast.Attribute) and n.value.func.attr == "append" and n.value.args:
+                cur, child = parents.get(n), n
+                lit = None
+                while cur is not None and cur is not sf.node:
+                    if isinstance(cur, ast.If) and isinstance(cur.test, ast.Compare) and len(cur.test.ops) == 1 and isinstance(cur.test.ops[0], ast.In) and child in cur.body \
+                            and norm(cur.test.comparators[0]) == resv:
+                        lit = norm(cur.test.left)
+                        break
+                    child, cur = cur, parents.get(cur)
+                if lit is None:
+                    continue
+                n_out += 1
+                arg = norm(n.value.args[0])
+                col.decide("X3", m, n, lit.startswith("-") == arg.startswith("-"), "reported fact %s has the sign of its literal %s" % (arg, lit),
+                           "mpe_maxsat reports %s for the literal %s: the sign of a reported fact must be the sign of its literal in the solution" % (arg, lit), function=sf.qualname)
+    if seen != {0, 1}:
+        col.fail("X3", m, f.node, "mpe_maxsat must account for both the atoms made true and the atoms made false in the reported probability", construct="def mpe_maxsat: probability product", function="mpe_maxsat")
     col.floor("X3.reported_facts", n_out, 4)
 
 
